@@ -770,3 +770,177 @@ Section Templates.
       fold rs in F2. rewrite F2. cbn [nonempty negb andb]. apply eval_wpkh_ok. exact Hc.
   Qed.
 End Templates.
+
+Lemma total_push_len_bound items : Forall pushable items -> total_push_len items <= 523 * lenL items.
+Proof.
+  induction 1 as [|d r [_ Hd] Hr IH]; [cbn; lia|].
+  cbn [total_push_len fold_right]. fold (total_push_len r). unfold lenL in *. cbn [length]. lia.
+Qed.
+
+Section TemplatesMS.
+  Variable chk : salgo -> bytes -> bytes -> bytes -> bool.
+  Variable commit : bytes -> bytes -> bytes -> bool.
+  Variable v2 : bool.
+
+  Lemma ms_pks_nonempty m keys pks sgf : ms_ok m keys pks sgf -> pks <> [] /\ keys <> [].
+  Proof.
+    intros H. destruct (mo_m _ _ _ _ H) as [Hm _]. pose proof (mo_count _ _ _ _ H) as Hc.
+    assert (pks <> []) by (intro E; subst pks; cbn in Hc; lia).
+    split; [assumption|]. intro E. subst keys. destruct pks as [|k r]; [congruence|].
+    apply (mo_incl _ _ _ _ H k). left. reflexivity.
+  Qed.
+
+  Lemma multisig_script_nonempty m keys : nonempty (multisig_script m keys) = true.
+  Proof. reflexivity. Qed.
+
+  Lemma has_f_some_nonempty s : nonempty s = true -> has_f v2 (Some s) = true.
+  Proof. intro H. unfold has_f. destruct v2; [exact H | reflexivity]. Qed.
+
+  (* ---- P2SH multisig ---- *)
+  Lemma p2sh_ms_final i m keys pks sgf :
+    ms_ok m keys pks sgf -> pi_sigs i = ms_pairs sgf pks ->
+    pi_redeem i = Some (multisig_script m keys) -> lenN (multisig_script m keys) <= 520 ->
+    (forall k, In k pks -> sig_typed (expected_sht i) (sgf k)) ->
+    (forall k, In k pks -> chk ALegacy (multisig_script m keys) k (sgf k) = true) ->
+    (forall k k', In k keys -> In k' keys -> chk ALegacy (multisig_script m keys) k (sgf k') = true -> k = k') ->
+    exists ss, legacy_sigscript v2 i = OcOk ss /\
+               satisfies chk commit (p2sh_script (hash160 (multisig_script m keys))) ss [] = true.
+  Proof.
+    intros Hok Hs Hr Hlen Ht Hv Hex. set (rs := multisig_script m keys) in *.
+    set (os := ms_ordered sgf keys pks).
+    pose proof (ms_ordered_pushable _ _ _ _ Hok) as Hpos. fold os in Hpos.
+    pose proof (ms_ordered_length _ _ _ _ Hok) as Hol. fold os in Hol.
+    pose proof (total_push_len_bound os Hpos) as Htl.
+    pose proof (lenN_concat_pushes os Hpos) as Hcl.
+    destruct (ms_pks_nonempty _ _ _ _ Hok) as [Hne Hkne].
+    assert (Hm16 : lenL os <= 16).
+    { unfold lenL. rewrite Hol. pose proof (mo_count _ _ _ _ Hok). destruct (mo_m _ _ _ _ Hok). unfold lenL in *. lia. }
+    assert (Hrs2 : 2 <= lenN rs).
+    { unfold rs, multisig_script. rewrite lenN_cons, lenN_app. change (lenN [small_int (lenL keys); SOP_CHECKMULTISIG]) with 2. lia. }
+    assert (Hprs : pushable rs) by (split; lia).
+    pose proof (add_data_raw_len rs Hprs) as Hrl.
+    exists ([SOP_0] ++ concat (map add_data_raw os) ++ add_data_raw rs). split.
+    - unfold legacy_sigscript. rewrite Hs.
+      rewrite check_sigs_ok.
+      2:{ intros pk sg Hin. unfold ms_pairs in Hin. apply in_map_iff in Hin as (k & E & Hk). inversion E; subst. apply Ht, Hk. }
+      cbn [obind]. destruct pks as [|k0 pks']; [congruence|]. cbn [ms_pairs map].
+      rewrite Hr. replace (has_f v2 (Some rs)) with true by (symmetry; apply has_f_some_nonempty; reflexivity). cbn [negb obytes].
+      change ((k0, sgf k0) :: map (fun k => (k, sgf k)) pks') with (ms_pairs sgf (k0 :: pks')).
+      unfold rs at 1. rewrite (ms_order _ _ _ _ Hok). fold os.
+      unfold sb_new, sb_op, MaxScriptSize. cbn [lenN length N.of_nat N.add N.leb N.compare Pos.compare Pos.compare_cont app].
+      rewrite fold_sb_data by (try exact Hpos; change (lenN [SOP_0]) with 1; lia).
+      rewrite sb_data_ok.
+      + cbn [of_builder]. rewrite <- app_assoc. reflexivity.
+      + rewrite lenN_app. change (lenN [SOP_0]) with 1. lia.
+      + exact Hlen.
+    - unfold satisfies.
+      destruct (class_p2sh (hash160 rs) (hash160_length rs)) as (E1 & E2 & E3 & E4 & E5).
+      rewrite E1, E2, E3, E4, E5. cbn [orb app].
+      unfold SOP_0. rewrite parse_pushes_op0. rewrite parse_pushes_concat by exact Hpos.
+      rewrite <- (app_nil_r (add_data_raw rs)), parse_pushes_push by exact Hprs.
+      rewrite parse_pushes_nil.
+      change ([] :: os ++ [rs]) with (([] :: os) ++ [rs]). rewrite unsnoc_app.
+      rewrite bytes_eqb_refl. cbn [andb].
+      unfold rs at 1. rewrite multisig_not_witness_program by (try exact Hkne; exact (mo_keys _ _ _ _ Hok)).
+      cbn [nonempty negb andb]. apply eval_multisig_ok; assumption.
+  Qed.
+
+  Lemma eval_wsh_ok m keys pks sgf :
+    ms_ok m keys pks sgf ->
+    (forall k, In k pks -> chk AWitV0 (multisig_script m keys) k (sgf k) = true) ->
+    (forall k k', In k keys -> In k' keys -> chk AWitV0 (multisig_script m keys) k (sgf k') = true -> k = k') ->
+    eval_witness_program chk (p2wsh_script (sha256 (multisig_script m keys)))
+      ([] :: ms_ordered sgf keys pks ++ [multisig_script m keys]) = true.
+  Proof.
+    intros Hok Hv Hex. unfold eval_witness_program.
+    destruct (class_p2wsh _ (sha256_len32 (multisig_script m keys))) as (E1 & E2 & _ & E4).
+    rewrite E1, E2, E4. unfold eval_wsh.
+    change ([] :: ms_ordered sgf keys pks ++ [multisig_script m keys])
+      with (([] :: ms_ordered sgf keys pks) ++ [multisig_script m keys]).
+    rewrite unsnoc_app, bytes_eqb_refl. cbn [andb]. apply eval_multisig_ok; assumption.
+  Qed.
+
+  Lemma ms_witness_ok m keys pks sgf : ms_ok m keys pks sgf ->
+    multisig_witness (multisig_script m keys) (ms_pairs sgf pks) =
+      Some (ser_witness ([] :: ms_ordered sgf keys pks ++ [multisig_script m keys])) /\
+    read_witness (ser_witness ([] :: ms_ordered sgf keys pks ++ [multisig_script m keys])) =
+      Some ([] :: ms_ordered sgf keys pks ++ [multisig_script m keys]).
+  Proof.
+    intro Hok. split.
+    - unfold multisig_witness. rewrite (ms_order _ _ _ _ Hok). reflexivity.
+    - pose proof (ms_ordered_pushable _ _ _ _ Hok) as Hpos.
+      pose proof (ms_ordered_length _ _ _ _ Hok) as Hol.
+      pose proof (multisig_script_len m keys (mo_keys _ _ _ _ Hok) (mo_n _ _ _ _ Hok)) as Hl.
+      pose proof (mo_n _ _ _ _ Hok) as Hn.
+      apply (read_witness_ser chk commit).
+      + constructor; [rewrite lenN_nil; lia|]. apply Forall_app. split.
+        * eapply Forall_impl; [|exact Hpos]. intros x [_ Hx]. lia.
+        * constructor; [lia | constructor].
+      + unfold lenL. cbn [length]. rewrite app_length, Hol. cbn [length].
+        pose proof (mo_count _ _ _ _ Hok). destruct (mo_m _ _ _ _ Hok). unfold lenL in *. lia.
+  Qed.
+
+  (* ---- P2WSH multisig ---- *)
+  Lemma p2wsh_ms_final i m keys pks sgf :
+    ms_ok m keys pks sgf -> pi_sigs i = ms_pairs sgf pks ->
+    has_f v2 (pi_redeem i) = false -> pi_wscript i = Some (multisig_script m keys) ->
+    (forall k, In k pks -> sig_typed (expected_sht i) (sgf k)) ->
+    (forall k, In k pks -> chk AWitV0 (multisig_script m keys) k (sgf k) = true) ->
+    (forall k k', In k keys -> In k' keys -> chk AWitV0 (multisig_script m keys) k (sgf k') = true -> k = k') ->
+    let w := [] :: ms_ordered sgf keys pks ++ [multisig_script m keys] in
+    witness_final v2 i = OcOk ([], ser_witness w) /\ read_witness (ser_witness w) = Some w /\
+    satisfies chk commit (p2wsh_script (sha256 (multisig_script m keys))) [] w = true.
+  Proof.
+    intros Hok Hs Hr Hw Ht Hv Hex w. destruct (ms_witness_ok _ _ _ _ Hok) as [Hmw Hrw].
+    destruct (ms_pks_nonempty _ _ _ _ Hok) as [Hne _].
+    split; [|split; [exact Hrw|]].
+    - unfold witness_final. rewrite Hs.
+      rewrite check_sigs_ok.
+      2:{ intros pk sg Hin. unfold ms_pairs in Hin. apply in_map_iff in Hin as (k & E & Hk). inversion E; subst. apply Ht, Hk. }
+      cbn [obind]. rewrite Hr, Hw. replace (has_f v2 (Some (multisig_script m keys))) with true by (symmetry; apply has_f_some_nonempty; reflexivity).
+      cbn [negb obytes]. rewrite Hmw.
+      destruct pks as [|k0 [|k1 r]]; [congruence | reflexivity | reflexivity].
+    - unfold satisfies.
+      destruct (class_p2wsh _ (sha256_len32 (multisig_script m keys))) as (E1 & E2 & _ & _).
+      rewrite E1, E2. cbn [orb nonempty negb andb]. apply eval_wsh_ok; assumption.
+  Qed.
+
+  (* ---- P2SH-P2WSH multisig ---- *)
+  Lemma p2sh_p2wsh_ms_final i m keys pks sgf :
+    ms_ok m keys pks sgf -> pi_sigs i = ms_pairs sgf pks ->
+    pi_redeem i = Some (p2wsh_script (sha256 (multisig_script m keys))) ->
+    pi_wscript i = Some (multisig_script m keys) ->
+    (forall k, In k pks -> sig_typed (expected_sht i) (sgf k)) ->
+    (forall k, In k pks -> chk AWitV0 (multisig_script m keys) k (sgf k) = true) ->
+    (forall k k', In k keys -> In k' keys -> chk AWitV0 (multisig_script m keys) k (sgf k') = true -> k = k') ->
+    let w := [] :: ms_ordered sgf keys pks ++ [multisig_script m keys] in
+    exists ss, witness_final v2 i = OcOk (ss, ser_witness w) /\ nonempty ss = true /\
+      read_witness (ser_witness w) = Some w /\
+      satisfies chk commit (p2sh_script (hash160 (p2wsh_script (sha256 (multisig_script m keys))))) ss w = true.
+  Proof.
+    intros Hok Hs Hr Hw Ht Hv Hex w. destruct (ms_witness_ok _ _ _ _ Hok) as [Hmw Hrw].
+    destruct (ms_pks_nonempty _ _ _ _ Hok) as [Hne _].
+    set (rs := p2wsh_script (sha256 (multisig_script m keys))) in *.
+    assert (Hlen : lenN rs = 34).
+    { unfold rs, p2wsh_script. rewrite lenN_app. unfold lenN at 2. rewrite sha256_len32. reflexivity. }
+    assert (Hprs : pushable rs) by (split; lia).
+    pose proof (add_data_raw_len rs Hprs).
+    exists (add_data_raw rs). split; [|split; [|split; [exact Hrw|]]].
+    - unfold witness_final. rewrite Hs.
+      rewrite check_sigs_ok.
+      2:{ intros pk sg Hin. unfold ms_pairs in Hin. apply in_map_iff in Hin as (k & E & Hk). inversion E; subst. apply Ht, Hk. }
+      cbn [obind]. rewrite Hr, Hw. replace (has_f v2 (Some (multisig_script m keys))) with true by (symmetry; apply has_f_some_nonempty; reflexivity).
+      replace (has_f v2 (Some rs)) with true by (symmetry; apply has_f_some_nonempty; reflexivity).
+      cbn [negb obytes]. unfold sb_new. rewrite sb_data_ok by (rewrite ?lenN_nil; lia).
+      cbn [app of_builder obind]. rewrite Hmw.
+      destruct pks as [|k0 r]; [congruence | reflexivity].
+    - rewrite add_data_raw_long by lia. replace (lenN rs <? 76) with true by lia. reflexivity.
+    - unfold satisfies.
+      destruct (class_p2sh (hash160 rs) (hash160_length rs)) as (E1 & E2 & E3 & E4 & E5).
+      rewrite E1, E2, E3, E4, E5. cbn [orb].
+      rewrite <- (app_nil_r (add_data_raw rs)), parse_pushes_push by exact Hprs.
+      rewrite parse_pushes_nil. cbn [unsnoc]. rewrite bytes_eqb_refl. cbn [andb].
+      destruct (class_p2wsh _ (sha256_len32 (multisig_script m keys))) as (_ & _ & F3 & _).
+      fold rs in F3. rewrite F3. cbn [nonempty negb andb]. apply eval_wsh_ok; assumption.
+  Qed.
+End TemplatesMS.
